@@ -7,7 +7,11 @@
   capacities are the generated ones (`Gen.SchedC`).
 -/
 import LbzVerif.Lemmas.SchedC.Witness
+import LbzVerif.Lemmas.SchedC.WitnessS
 import LbzVerif.Lemmas.SchedC.Progress
+import LbzVerif.Lemmas.SchedC.Enabled
+import LbzVerif.Lemmas.SchedC.Measure
+import LbzVerif.Lemmas.SchedC.Quiet
 
 namespace LbzVerif.Props.C11.Compress
 open LbzVerif.Gen LbzVerif.Model.SchedC
@@ -97,25 +101,12 @@ theorem terminal_conservation {c : Cfg} {cd : Codec α σ} {input : List α} {s 
 example : finished wCfg wFinal = true ∧ Reach wCfg wCodec wInput wFinal :=
   ⟨wFinal_facts.2.1, wFinal_reach⟩
 
-/-- **progress** (`_partial`).  Proved for all `n`, inputs and schedules:
-    a worker that holds the mutex at the head of the worker loop ALWAYS has an
-    enabled step — the stored `next_task` is runnable because its generated
+/-- a worker that holds the mutex at the head of the worker loop ALWAYS has an
+    enabled step: the stored `next_task` is runnable because its generated
     guard implies the preconditions of the task body (non-empty queue, a work
     unit / output slot to take: no `dequeue` on an empty queue, no counter
-    underflow), or it waits / exits; and a `sched_unlock` never blocks.
-    Since a ready worker can take the free mutex and a worker inside a task
-    needs at most the mutex, every state with a non-waiting, non-exited worker
-    has an enabled transition.
-    MISSING for the full statement (`every reachable non-final state has an
-    enabled transition and a measure decreases`): (1) the case where every
-    live worker is in `xwait` — needs the no-lost-wake-up invariant plus the
-    reserve argument (`out_slots + #{slot holders at or before `order`} ≥
-    min(TRANSM_THRESH, total_out)`, a unit is available to the minimal
-    `coll_q` entry); (2) the decreasing measure.  Both are covered only by
-    exhaustive exploration of the executable model with the generated guards
-    (`schedc-bfs`: `stuck = 0` and every maximal path ends in the final state,
-    n ≤ 3, all shapes tried). -/
-theorem progress_partial {c : Cfg} {cd : Codec α σ} {input : List α} {s : State α σ}
+    underflow), or it waits / exits. -/
+theorem head_progress {c : Cfg} {cd : Codec α σ} {input : List α} {s : State α σ}
     (h : Reach c cd input s) (i : Nat) (hi : s.ws[i]? = some .atHead) :
     ∃ k s', step c cd s (.run i k) = some s' := by
   obtain ⟨k, s', hk⟩ := head_enabled (inv1_reach h).sel i
@@ -127,5 +118,195 @@ theorem unlock_never_blocks (c : Cfg) (s : State α σ) : ∃ k s', unlock c s k
 
 example : ∃ s : State Nat (List Nat), Reach wCfg wCodec wInput s ∧ s.ws[0]? = some .atHead :=
   ⟨_, reach_of_run [.rTake, .rDeliver 0, .acquire 0] .init rfl, by decide⟩
+
+/-- **wake-up discipline, second half (no lost wake-up)**: in every reachable
+    state in which `sched_mutex` is free and a task is ready or the process has
+    finished, some worker has a wake-up pending or nobody is in `xwait`; a
+    worker exits only when `can_terminate()` holds, `can_terminate()` is stable,
+    and after the first exit (`xbroadcast`) nobody waits; `do_collect_seq`
+    never trips `assert(iblk != NULL)`; `eof` is set exactly when the reader
+    is done.  All interleavings, spurious wake-ups included. -/
+theorem no_lost_wakeup {c : Cfg} {cd : Codec α σ} {input : List α} {s : State α σ}
+    (h : Reach c cd input s) :
+    (lockFree s = true → (s.nextTask.isSome = true ∨ finished c s = true) →
+      WPhase.ready ∈ s.ws ∨ ∀ p ∈ s.ws, p.isWaiting = false) ∧
+    (WPhase.exited ∈ s.ws → finished c s = true ∧ ∀ p ∈ s.ws, p.isWaiting = false) ∧
+    (∀ p ∈ s.ws, p ≠ .s1 none none) :=
+  let w := wake_reach h
+  ⟨w.noLost, w.exitFin, w.noBad⟩
+
+theorem terminate_stable {c : Cfg} {cd : Codec α σ} {input : List α} {s s' : State α σ}
+    {l : Label} (h : Reach c cd input s) (hf : finished c s = true)
+    (hs : step c cd s l = some s') : finished c s' = true :=
+  finished_stable h hf hs
+
+/-- **progress, up to the quiet state** (superseded by `progress`; kept because
+    it needs neither `Codec.OK` nor the slot hypotheses): with at least one
+    worker, every reachable state that is not final has an enabled transition
+    that is not a spurious wake-up — a thread that is not blocked on a condition
+    variable can always move — OR the state is *quiet*: `sched_mutex` free,
+    every worker in `xwait` and none gone, the reader done or stalled on
+    `in_slots == 0`, the writer idle with an empty `output_q`. -/
+theorem progress_partial {c : Cfg} {cd : Codec α σ} {input : List α} {s : State α σ}
+    (hn : 1 ≤ c.n) (h : Reach c cd input s) (hnf : isFinal s = false) :
+    (∃ l s', Label.isSpurious l = false ∧ step c cd s l = some s') ∨ Quiet s :=
+  canStep_or_quiet hn h hnf
+
+/-- **quiet states are unreachable** (the all-workers-waiting case).  In a
+    quiet state the no-lost-wake-up invariant says that no task guard holds and
+    `can_terminate()` is false; but the block at position `order` (`canon` is a
+    `next`-chain, `handed` its prefix, the rest is what is in flight) is
+      * the head of `reord_q` — `can_reorder`; or
+      * the head of `trans_q`, and the reserve invariant behind TRANSM_THRESH
+        (`out_slots` + slot holders at or before `order` ≥ min(2, total_out))
+        leaves `out_slots > 0` — `can_transmit`; or
+      * still to be collected: default mode — at most `n-1` unit holders are
+        later than the minimal `coll_q` entry, so `work_units > 0` —
+        `can_collect`; `--sequential` — blocks already made precede the blocks
+        still to be made, so `trans_q` is empty — `can_collect_seq`; or
+      * not yet read, and then `coll_q` would be empty and `in_slots > 0`; or
+      * nothing is left at all, and then `can_terminate()` holds.
+    Hypotheses: `Codec.OK`, chunk size, worker count, input and output slot
+    totals all ≥ 1. -/
+theorem no_quiet_state {c : Cfg} {cd : Codec α σ} {input : List α} {s : State α σ}
+    (ok : cd.OK) (hg : 0 < c.inGranul) (hn : 1 ≤ c.n) (hin : 1 ≤ c.totalIn)
+    (hout : 1 ≤ c.totalOut) (h : Reach c cd input s) : ¬ Quiet s :=
+  quiet_unreachable ok hg hn hin hout h
+
+/-- **progress** (full strength).  Every reachable state that is not final
+    (all threads gone) has an enabled transition which is not a spurious
+    wake-up: the compression scheduler cannot deadlock and loses no wake-up —
+    for every worker count ≥ 1, slot totals ≥ 1, input, mode, and every
+    interleaving (spurious wake-ups included) that led to the state. -/
+theorem progress {c : Cfg} {cd : Codec α σ} {input : List α} {s : State α σ}
+    (ok : cd.OK) (hg : 0 < c.inGranul) (hn : 1 ≤ c.n) (hin : 1 ≤ c.totalIn)
+    (hout : 1 ≤ c.totalOut) (h : Reach c cd input s) (hnf : isFinal s = false) :
+    ∃ l s', Label.isSpurious l = false ∧ step c cd s l = some s' := by
+  rcases canStep_or_quiet hn h hnf with hc | hq
+  · exact hc
+  · exact absurd hq (quiet_unreachable ok hg hn hin hout h)
+
+/-- with the numbers `set_memory_constraints()` computes (`n ≥ 1` workers,
+    level `bs ≥ 1`: 2n input slots, 2n+2 output slots, chunks of bs·100000) -/
+theorem progress_gen {n bs : Nat} {u : Bool} {cd : Codec α σ} {input : List α} {s : State α σ}
+    (ok : cd.OK) (hn : 1 ≤ n) (hbs : 1 ≤ bs) (h : Reach (Cfg.ofGen n bs u) cd input s)
+    (hnf : isFinal s = false) :
+    ∃ l s', Label.isSpurious l = false ∧ step (Cfg.ofGen n bs u) cd s l = some s' :=
+  progress ok (by simp only [Cfg.ofGen, memCompress]; omega) hn
+    (by simp only [Cfg.ofGen, memCompress]; omega) (by simp only [Cfg.ofGen, memCompress]; omega)
+    h hnf
+
+/-- a state in which no thread can move (other than by a spurious wake-up) is
+    the final state, `can_terminate()` holds there and everything is back -/
+theorem stuck_is_final {c : Cfg} {cd : Codec α σ} {input : List α} {s : State α σ}
+    (ok : cd.OK) (hg : 0 < c.inGranul) (hn : 1 ≤ c.n) (hin : 1 ≤ c.totalIn)
+    (hout : 1 ≤ c.totalOut) (h : Reach c cd input s)
+    (hstuck : ¬ ∃ l s', Label.isSpurious l = false ∧ step c cd s l = some s') :
+    isFinal s = true ∧ finished c s = true := by
+  have hfin : isFinal s = true := by
+    cases hh : isFinal s with
+    | true => rfl
+    | false => exact absurd (progress ok hg hn hin hout h hh) hstuck
+  refine ⟨hfin, ?_⟩
+  have hall : s.ws.all (·.isExited) = true := by
+    simp only [isFinal, Bool.and_eq_true] at hfin; exact hfin.1.1.1
+  have hlen := (inv1_reach h).cons.nWorkers
+  cases hws : s.ws with
+  | nil => rw [hws] at hlen; simp at hlen; omega
+  | cons p l =>
+    have hp : p.isExited = true := List.all_eq_true.mp hall p (by rw [hws]; exact List.mem_cons_self)
+    have : p = .exited := by cases p <;> simp [WPhase.isExited] at hp ⊢
+    exact ((wake_reach h).exitFin (by rw [hws, this]; exact List.mem_cons_self)).1
+
+theorem quiet_no_task {c : Cfg} {cd : Codec α σ} {input : List α} {s : State α σ}
+    (h : Reach c cd input s) (q : Quiet s) :
+    selectTask (view c s) = none ∧ finished c s = false :=
+  quiet_idle h q
+
+/-- non-vacuity: the hypotheses of `progress` hold for the witness
+    configuration and its middle state, which is not final and indeed has an
+    enabled non-spurious transition -/
+example : 0 < wCfg.inGranul ∧ 1 ≤ wCfg.n ∧ 1 ≤ wCfg.totalIn ∧ 1 ≤ wCfg.totalOut := by decide
+
+
+example : Reach wCfg wCodec wInput wMid ∧ isFinal wMid = false ∧ 1 ≤ wCfg.n ∧
+    (∃ l, Label.isSpurious l = false ∧ (step wCfg wCodec wMid l).isSome = true) :=
+  ⟨wMid_reach, wMid_facts.2.2.2.2.2.2.2, by decide, .wTake, rfl, by decide⟩
+
+/-! ## termination -/
+
+/-- **measure**: `mu s = (workers not yet gone, 3·work + phase)` (see
+    `Lemmas.SchedC.Measure`: `work` bounds the sections still to be executed,
+    `phase` what idle workers still do on their own) decreases in the
+    lexicographic order `muLt` (well-founded: `muLt_wf`) along EVERY transition
+    of a reachable state except a spurious wake-up.  Needs the collector facts
+    `Codec.OK` (a fresh encoder takes a byte, …) and a positive chunk size. -/
+theorem measure_decreases {c : Cfg} {cd : Codec α σ} {input : List α} {s s' : State α σ}
+    {l : Label} (ok : cd.OK) (hg : 0 < c.inGranul) (h : Reach c cd input s)
+    (hl : l.isSpurious = false) (hs : step c cd s l = some s') : muLt (mu s') (mu s) :=
+  step_measure ok hg (inv1_reach h).sel hl hs
+
+/-- a spurious wake-up costs exactly 2 units of `phase` and nothing else: the
+    woken worker takes the mutex, sees `next_task == NULL` and waits again. -/
+theorem spurious_cost {c : Cfg} {cd : Codec α σ} {s s' : State α σ} {i : Nat}
+    (hs : step c cd s (.spurious i) = some s') :
+    live s' = live s ∧ work s' = work s ∧ phase s' = phase s + 2 :=
+  spurious_measure hs
+
+theorem no_descending_chain {β : Type} {r : β → β → Prop} (wf : WellFounded r)
+    (g : Nat → β) : ¬ ∀ i, r (g (i + 1)) (g i) := by
+  intro hg
+  have key : ∀ x, ∀ i, g i = x → False := by
+    intro x
+    induction x using wf.induction with
+    | _ x ih =>
+      intro i hi
+      exact ih (g (i + 1)) (hi ▸ hg i) (i + 1) rfl
+  exact key (g 0) 0 rfl
+
+/-- **terminates**: every run is finite unless it contains infinitely many
+    spurious wake-ups.  Precisely: for every infinite sequence of transitions
+    `f 0 →ℓ 0→ f 1 →ℓ 1→ …` starting in a reachable state (any worker count,
+    input, mode, slot totals; no fairness assumed) and every `N` there is an
+    `i ≥ N` whose label `ℓ i` is a spurious wake-up.  In particular there is no
+    infinite run without spurious wake-ups (`terminates_ns`), so every maximal
+    such run is finite, and by `progress` / `stuck_is_final` it ends in the final
+    state, where `can_terminate()` holds and (C03 `output_canon`) the canonical
+    block list has been written.  (A run with infinitely many spurious wake-ups exists in the
+    model — wake, take the mutex, wait again, forever — and is harmless.) -/
+theorem terminates {c : Cfg} {cd : Codec α σ} {input : List α} (ok : cd.OK)
+    (hg : 0 < c.inGranul) (f : Nat → State α σ) (ℓ : Nat → Label)
+    (h0 : Reach c cd input (f 0)) (hstep : ∀ i, step c cd (f i) (ℓ i) = some (f (i + 1))) :
+    ∀ N, ∃ i, N ≤ i ∧ (ℓ i).isSpurious = true := by
+  intro N
+  have hreach : ∀ i, Reach c cd input (f i) := by
+    intro i
+    induction i with
+    | zero => exact h0
+    | succ i ih => exact .step (ℓ i) ih (hstep i)
+  apply Classical.byContradiction
+  intro hno
+  have hns : ∀ i, N ≤ i → (ℓ i).isSpurious = false := by
+    intro i hi
+    cases hh : (ℓ i).isSpurious with
+    | false => rfl
+    | true => exact absurd ⟨i, hi, hh⟩ hno
+  apply no_descending_chain muLt_wf (fun i => mu (f (N + i)))
+  intro i
+  exact measure_decreases ok hg (hreach (N + i)) (hns (N + i) (by omega)) (hstep (N + i))
+
+/-- no infinite run without spurious wake-ups -/
+theorem terminates_ns {c : Cfg} {cd : Codec α σ} {input : List α} (ok : cd.OK)
+    (hg : 0 < c.inGranul) (f : Nat → State α σ) (ℓ : Nat → Label)
+    (h0 : Reach c cd input (f 0)) :
+    ¬ ∀ i, (ℓ i).isSpurious = false ∧ step c cd (f i) (ℓ i) = some (f (i + 1)) := by
+  intro h
+  obtain ⟨i, _, hi⟩ := terminates ok hg f ℓ h0 (fun i => (h i).2) 0
+  rw [(h i).1] at hi; cases hi
+
+/-- non-vacuity: the measure along the sequential witness run: 2 live workers
+    at the start, 0 at the end, and a concrete decrease on the first step -/
+example : (mu (init (σ := List Nat) sCfg sInput)).1 = 2 ∧ (mu sFinal).1 = 0 ∧ (mu sFinal).2 = 0 ∧
+    (mu (init (σ := List Nat) sCfg sInput)).2 = 3 * (28 * 7 + 3) + 4 := by decide
 
 end LbzVerif.Props.C11.Compress
